@@ -1911,10 +1911,7 @@ impl Analyzable for Expression
 							location,
 						},
 					},
-					Some(Err(_poison)) => Expression::LengthOfArray {
-						reference,
-						location,
-					},
+					Some(Err(poison)) => Expression::Poison(poison),
 					None => Expression::LengthOfArray {
 						reference,
 						location,
